@@ -244,10 +244,12 @@ def dec_text(d, pos):
     return ("-" if d["neg"] else pos) + str(d["ip"]) + "." + "".join("%04d" % f for f in d["fr"])
 
 
-def sdf_record(name, atoms, bonds):
+def sdf_record(name, atoms, bonds, chg=False):
     out = [name, "  spec", "", "%3d%3d%3d   " % (len(atoms), len(bonds), 0) + "  0" * 6 + "999 V2000"]
     out += [sdf_atom_line(z, c) for z, c in atoms]
     out += ["%3d%3d%3d" % tuple(b) + "  0" * 4 for b in bonds]
+    if chg:
+        out.append("M  CHG%3d %3d %3d" % (1, len(atoms), -1))
     out.append("M  END")
     return out
 
@@ -256,12 +258,12 @@ def propose_sdf_file(names, mols, style):
     """the harness's proposal of SdfFile(names, mols, style); TLC certifies it"""
     out = []
     if not style["term"]:
-        out = sdf_record(names[0], mols[0]["atoms"], mols[0]["bonds"])
+        out = sdf_record(names[0], mols[0]["atoms"], mols[0]["bonds"], style.get("chg", False))
         if style["data"]:
             out += ["> <ID>", "1", ""]
         return "\n".join(out)
     for i, m in enumerate(mols):
-        out += sdf_record(names[i], m["atoms"], m["bonds"])
+        out += sdf_record(names[i], m["atoms"], m["bonds"], style.get("chg", False))
         if style["data"]:
             out += ["> <ID>", str(i + 1), ""]
         out.append("$$$$")
@@ -521,7 +523,7 @@ def make_recipes(ctx):
     for i in range(n_sdfread):
         nrec = rng.choice([1, 1, 2, 3])
         term = nrec > 1 or rng.random() < 0.6
-        style = {"term": term, "data": rng.random() < 0.5}
+        style = {"term": term, "data": rng.random() < 0.5, "chg": rng.random() < 0.35}
         mols, names = [], []
         for j in range(nrec):
             n = rng.choice([1, 2, 3, 5, 12, 40, 99, 100, 101, 150]) if i % 4 == 0 else rng.randint(1, 30)
